@@ -24,9 +24,9 @@ Images == << <<68, 240, 31, 255, 32, 250>>,
              <<255, 240, 16, 240, 31, 255, 255, 241, 17, 241, 31, 254, 32, 242>> >>
 Budgets == IF Tier = "quick" THEN {0, 1, 2, 9, 40} ELSE {0, 1, 2, 3, 9, 25, 40, 90}
 Cand(N) == {0, 1, 2, 7, 30, N - 1, N, N + 5} \cap (0..200)
-IntSets(N) == IF Tier = "quick" THEN {{}, {0}, {7}, {0, 2}, {1, 7}, {N - 1} \cap (0..200), {N} \cap (0..200), {2, 7, N + 5}, {7, 30}, {0, 30, 31}}
+IntSets(N) == IF Tier = "quick" THEN {{}, {0}, {7}, {0, 2}, {1, 7}, {N - 1} \cap (0..200), {N} \cap (0..200), {2, 7, N + 5}, {7, 30}, {0, 30, 31}, {30}}
               ELSE {S \in SUBSET Cand(N) : Cardinality(S) <= 2} \cup {Cand(N)}
-ResetSets(N) == IF Tier = "quick" THEN {{}, {0}, {7}, {2, 7}, {N - 1} \cap (0..200), {N}}
+ResetSets(N) == IF Tier = "quick" THEN {{}, {0}, {7}, {2, 7}, {N - 1} \cap (0..200), {N}, {30}}
                 ELSE {S \in SUBSET ({0, 2, 7, N - 1, N} \cap (0..200)) : Cardinality(S) <= 2}
 Inputs == {<<0, 0, 0, 0>>, <<200, 1, 2, 255>>}
 \* board configurations given on the command line (voltages in millivolts)
